@@ -19,7 +19,7 @@ def sh(cmd, **kw):
 
 def main():
     cand, name = sys.argv[1], sys.argv[2]
-    wt = "/var/tmp/confirm-wt-%d" % os.getpid()
+    wt = "/var/tmp/confirm-wt"
     bd = "/var/tmp/confirm-build"      # reused incrementally across confirmations
     sh(["git", "-C", "/repo", "worktree", "add", "--detach", wt, "HEAD"])
     res = {}
@@ -31,7 +31,7 @@ def main():
             return sh(["cmake", "--build", bd, "-j16"])
         # the build dir caches the source path: wipe it when it points elsewhere
         cache = os.path.join(bd, "CMakeCache.txt")
-        if os.path.exists(cache) and ("CMAKE_HOME_DIRECTORY:INTERNAL=" + wt) not in open(cache).read():
+        if os.path.exists(cache) and ("CMAKE_HOME_DIRECTORY:INTERNAL=" + wt + "\n") not in open(cache).read():
             shutil.rmtree(bd)
         rc, out = build()
         if rc != 0:
